@@ -1,9 +1,11 @@
 package pfcpx
 
 import (
+	"encoding/binary"
 	"fmt"
 	"net"
 	"sync"
+	"syscall"
 	"time"
 
 	"github.com/wmnsk/go-pfcp/ie"
@@ -210,7 +212,7 @@ type Peer struct {
 // Answer is one response the scripted peer sends to an agent-originated request.
 type Answer struct {
 	Delay   time.Duration
-	SeqDiff int // added to the request's sequence number (0 = correct answer)
+	SeqDiff int   // added to the request's sequence number (0 = correct answer)
 	Cause   uint8 // Association Setup Response cause (0 = accepted)
 	NoCause bool  // omit the Cause IE
 }
@@ -234,6 +236,13 @@ func NewPeer(name, local, remote, nodeID string) (*Peer, error) {
 
 	p := &Peer{Name: name, NodeID: nodeID, conn: c, remote: ra, TS: time.Unix(1700000000, 0)}
 
+	// kernel receive time stamps: the time a datagram arrived does not depend on when this process gets to run
+	if rc, err := c.SyscallConn(); err == nil {
+		_ = rc.Control(func(fd uintptr) {
+			_ = syscall.SetsockoptInt(int(fd), syscall.SOL_SOCKET, syscall.SO_TIMESTAMPNS, 1)
+		})
+	}
+
 	go p.reader()
 
 	return p, nil
@@ -241,11 +250,28 @@ func NewPeer(name, local, remote, nodeID string) (*Peer, error) {
 
 func (p *Peer) LocalAddr() string { return p.conn.LocalAddr().String() }
 
+// kernelTime extracts the SCM_TIMESTAMPNS control message (falls back to now).
+func kernelTime(oob []byte) time.Time {
+	if msgs, err := syscall.ParseSocketControlMessage(oob); err == nil {
+		for _, m := range msgs {
+			if m.Header.Level == syscall.SOL_SOCKET && m.Header.Type == syscall.SO_TIMESTAMPNS && len(m.Data) >= 16 {
+				sec := int64(binary.LittleEndian.Uint64(m.Data[0:8]))
+				nsec := int64(binary.LittleEndian.Uint64(m.Data[8:16]))
+
+				return time.Unix(sec, nsec)
+			}
+		}
+	}
+
+	return time.Now()
+}
+
 func (p *Peer) reader() {
 	buf := make([]byte, 65536)
+	oob := make([]byte, 256)
 
 	for {
-		n, _, err := p.conn.ReadFromUDP(buf)
+		n, oobn, _, _, err := p.conn.ReadMsgUDP(buf, oob)
 		if err != nil {
 			p.mu.Lock()
 			closed := p.closed
@@ -261,7 +287,7 @@ func (p *Peer) reader() {
 			continue
 		}
 
-		d := Decode(append([]byte(nil), buf[:n]...), time.Now())
+		d := Decode(append([]byte(nil), buf[:n]...), kernelTime(oob[:oobn]))
 
 		p.mu.Lock()
 		if pol := p.Policy; pol != nil && (d.TypeNum == int(message.MsgTypeHeartbeatRequest) || d.TypeNum == int(message.MsgTypeAssociationSetupRequest)) {
